@@ -420,7 +420,11 @@ and gen_op_plain (g : genst) (s : mstate) : string =
            if owned then (if slot_zero (ix_i P s) = chance 92 then Printf.sprintf "pushinit %d" v else Printf.sprintf "push %d" v)
            else pick [Printf.sprintf "push %d" v; Printf.sprintf "push %d" v; Printf.sprintf "pushinit %d" v]
          | 4 | 5 | 6 ->
-           let n = small () in
+           (* owned items: never a slice LONGER THAN THE RING - in a state that an earlier contract-breaking `unsafe` call has corrupted such a
+              request may be accepted, the stores then visit a slot twice and what the second visit finds depends on the order of the
+              crate's per-slot loop, which the Model (all old values, then all new ones) does not claim to describe; within the contract
+              a request of `len` items is refused just like a longer one *)
+           let n = if owned then min len (small ()) else small () in
            let vs = fresh_vals g n in
            if owned then
              (let anyzero = List.exists (fun j -> slot_zero ((ix_i P s + j) mod len)) (List.init (min n len) (fun j -> j)) in
@@ -605,7 +609,7 @@ let arand_body (g : genst) (owned : bool) (s0 : astate) (n : int) (cap : int) =
              match k with
              | P -> (match rnd 8 with
                  | 0 | 1 | 2 -> Printf.sprintf "push %d" (List.hd (fresh_vals g 1))
-                 | 3 | 4 -> let vs = fresh_vals g (small ()) in if owned then "pushclone " ^ csv vs else pick ["pushslice " ^ csv vs; "pushclone " ^ csv vs]
+                 | 3 | 4 -> let vs = fresh_vals g (if owned then min (len_i m) (small ()) else small ()) in if owned then "pushclone " ^ csv vs else pick ["pushslice " ^ csv vs; "pushclone " ^ csv vs]
                  | 5 -> pick ["nextitem"; "nextinit"; "get1 P"]
                  | 6 -> Printf.sprintf "nextslices %d" (small ())
                  | _ -> pick ["getavail P"; Printf.sprintf "getn P %d" (small ()); Printf.sprintf "getmult P %d" (rnd 4)])
